@@ -66,7 +66,7 @@ M = {
          "The real MPIMaster/MPIWorker/mpi_skel::run execute over simulated MPI on 1..16 ranks, 1..4 rounds, 0..40 jobs under seeded interleavings, latencies, stalls, eager/rendezvous sends; the recorded history is checked for exactly-once execution, agreement and truthfulness of the returned map and exit of every rank (deadlock/hang/step-budget detectors). Small configurations get a fixed share so that their interleaving space is sampled densely; no exhaustiveness is claimed.",
          TRUST, "deterministic simulation: seeded schedule/fault search over the real dispatcher on simulated MPI, history checker", "DESIGN.md §3.1"),
    check("C17",
-         "ASan+UBSan stay live inside every simulated run of the dispatcher, parallel-workflow, container-history and workflow-history harnesses (1..16 ranks); simulated MPI reads and writes every caller buffer with a plain memcpy at the address and length the caller gave, so wrong counts, null or dead buffers and non-owner code paths become visible; runs in which ranks disagree about the size of a buffer that crosses MPI (collective-count-mismatch, truncation) count as violations too; the thorough tier adds a valgrind-memcheck subsample for uninitialised reads. Scoped to the sampled model family and call histories.",
+         "ASan+UBSan stay live inside every simulated run of the dispatcher, parallel-workflow, container-history and workflow-history harnesses (1..16 ranks); simulated MPI reads and writes every caller buffer with a plain memcpy at the address and length the caller gave, so wrong counts, null or dead buffers and non-owner code paths become visible; runs in which ranks disagree about the size of a buffer that crosses MPI (collective-count-mismatch, truncation) count as violations too; a clang-built ASan/UBSan part covers complex compound assignments that g++'s ASan pass leaves uninstrumented, and the whole workflow also runs on one inline rank with OpenMP teams of real threads under ThreadSanitizer and helgrind (a data race is undefined behaviour); the thorough tier adds a valgrind-memcheck subsample for uninitialised reads. Scoped to the sampled model family and call histories.",
          TRUST + " Sanitizer coverage is that of gcc-12 ASan/UBSan; uninitialised reads only via a valgrind subsample in the thorough tier.",
          "deterministic simulation with sanitizers live in every simulated run (memory faults at MPI buffer boundaries made observable)", "DESIGN.md §3.4"),
  ],
